@@ -200,6 +200,8 @@ def generate(rng, tier):
             op = "mutation" if rng.random() < 0.25 else "query"
             p = gen_sched.gen_program(rng, op, spec["min_tasks"], spec["max_tasks"], p_exn=spec["p_exn"])
             p["layout"] = rng.choice(["distinct", "distinct", "shared", "mutnested"])
+            if rng.random() < 0.3:
+                p = gen_sched.add_render(rng, p)
             cases.extend(_cases_for(p, limit, samples, rng.randrange(1 << 30)))
             if not quick and rng.random() < 0.5:
                 cases.append({"prog": p, "config": "threads", "limit": 0, "samples": 25, "seed": rng.randrange(1 << 30)})
